@@ -29,6 +29,7 @@ fn main() {
     match args[0].as_str() {
         "symtab-walk" => symtab::walk(rest),
         "symtab-record" => symtab::record(rest),
+        "anz-symtrace" => symtab::record_analysis(rest),
         "types-table" => types::table(rest),
         "probe" => pipe::probe(rest),
         "gating-cases" => gating::cases(rest),
